@@ -149,6 +149,7 @@ def run(check, an: Analysis):
 
     # a scope absorbs each of its own signals (else they leak out of run())
     _scope.check_suppression(check, an, 'H')
+    _scope.check_foreign_signal_leaves_exit(check, an, 'H')
     # ---- P ------------------------------------------------------------------
     _check_signal_lifecycles(check, an, wrapper)
     # ---- S ------------------------------------------------------------------
